@@ -495,7 +495,320 @@ Section OnState.
       pose proof Hn1 as (_ & _ & _ & Hs1). rewrite Hs1, (find_last_stem _ _ _ Hdp), last_last.
       change (y :: q' ++ [x]) with ((y :: q') ++ [x]). rewrite Eq2, !concat_snoc, <- !app_assoc. reflexivity.
   Qed.
+
+  (* ====================================================================================== *)
+  (* the write side: __ensure_stem_from_siblings                                            *)
+  (* ====================================================================================== *)
+  Definition R2 : Type := option (py_pm * py_node).
+
+  Definition loop2 (v_stem : bytes) :=
+   fix py_loop (fuel : nat) (st : (py_pm * py_node)) {struct fuel} : (R2 + (py_pm * py_node)) :=
+   match fuel with
+   | O => inr st
+   | S fuel' =>
+   let '(sg, v_node) := st in
+   (let v_current_stem := (py_node_stem v_node) in
+   (if (beq v_current_stem v_stem)
+   then (inl (Some (sg, v_node)))
+   else (if (blt v_stem v_current_stem)
+   then (if (py_node_has_left v_node)
+   then (match py_node_read_left v_node sg with
+   | None => (inl None)
+   | Some (v_node, sg) => (py_loop fuel' (sg, v_node)) end)
+   else (inr (sg, v_node)))
+   else (if (py_node_has_right v_node)
+   then (match py_node_read_right v_node sg with
+   | None => (inl None)
+   | Some (v_node, sg) => (py_loop fuel' (sg, v_node)) end)
+   else (inr (sg, v_node))))))
+   end.
+
+  Definition hang (v_stem : bytes) (sg : py_pm) (v_node : py_node) : option (py_pm * py_node) :=
+   (let '(v__n, sg) := py_node_init sg (Some v_stem) None None in
+   let v_sibling := v__n in
+   (let v_sibling := py_node_set_parent v_sibling (py_node_parent v_node) in
+   (let '(v_sibling, sg) := py_node_write v_sibling sg in
+   (if (blt v_stem (py_node_stem v_node))
+   then (match (nd_block v_sibling) with
+   | None => None
+   | Some v__x => (match py_node_set_left v_node v__x with
+   | None => None
+   | Some v_node => (let '(v_node, sg) := py_node_write v_node sg in
+   (Some (sg, v_sibling))) end) end)
+   else (match (nd_block v_sibling) with
+   | None => None
+   | Some v__x => (match py_node_set_right v_node v__x with
+   | None => None
+   | Some v_node => (let '(v_node, sg) := py_node_write v_node sg in
+   (Some (sg, v_sibling))) end) end))))).
+
+  Lemma ensure_eq : forall sg n x,
+    py_trie_ensure_stem_from_siblings sg n x =
+    (if negb (nd_exists n)
+     then (let n := py_node_set_stem n x in let '(n, sg) := py_node_write n sg in Some (sg, n))
+     else match loop2 x (S (length (pm_array sg))) (sg, n) with
+          | inl r => r
+          | inr (sg, n) => hang x sg n
+          end).
+  Proof. reflexivity. Qed.
+
+  (* where the walk among the siblings ends: at the node carrying the stem, or at the node under which a new sibling hangs
+     (true: as its left sibling) *)
+  Fixpoint sib_end (x : bytes) (t : tst) : option (tst * option bool) :=
+    match t with
+    | Lf => None
+    | Nd d l c r =>
+        match lex x (stem d) with
+        | Eq => Some (t, None)
+        | Lt => match l with Lf => Some (t, Some true) | _ => sib_end x l end
+        | Gt => match r with Lf => Some (t, Some false) | _ => sib_end x r end
+        end
+    end.
+
+  Lemma loop2_spec : forall x sub, subt sub (tr s) -> forall fuel n sg,
+    (size sub <= fuel)%nat -> node_at sub n -> trep (files_of s) sg ->
+    exists sg' t n', trep (files_of s) sg' /\ pm_array sg' = pm_array sg /\ node_at t n' /\ subt t (tr s) /\
+      ((sib_end x sub = Some (t, None) /\ loop2 x fuel (sg, n) = inl (Some (sg', n'))) \/
+       (exists side, sib_end x sub = Some (t, Some side) /\ loop2 x fuel (sg, n) = inr (sg', n') /\
+          match t with
+          | Lf => False
+          | Nd dt lt ct rt => lex x (stem dt) = (if side then Lt else Gt) /\ (if side then lt else rt) = Lf
+          end)).
+  Proof.
+    intros x sub. induction sub as [|d l IHl c _ r IHr]; intros Hsub fuel n sg Hf Hn Hrep; [destruct Hn|].
+    destruct fuel as [|k]; [cbn [size] in Hf; lia|]. cbn [size] in Hf.
+    pose proof Hn as (He & Hb & Hd & Hs).
+    cbn [loop2 sib_end]. rewrite Hs, beq_lex. unfold blt.
+    destruct (lex x (stem d)) eqn:E.
+    - exists sg, (Nd d l c r), n. split; [exact Hrep|]. split; [reflexivity|]. split; [exact Hn|]. split; [exact Hsub|].
+      left. split; reflexivity.
+    - unfold py_node_has_left, py_node_read_left, py_node_has_left, py_node_left.
+      rewrite Hd, get_left. cbn [main_block b_left].
+      pose proof (follow_reg l n sg (root_addr l)) as HF.
+      destruct l as [|dl ll cl rl].
+      + cbn [root_addr]. change (0 =? 0) with true. cbn [negb].
+        exists sg, (Nd d Lf c r), n. split; [exact Hrep|]. split; [reflexivity|]. split; [exact Hn|]. split; [exact Hsub|].
+        right. exists true. split; [reflexivity|]. split; [reflexivity|]. split; [exact E|reflexivity].
+      + pose proof (subt_left _ _ _ _ _ Hsub) as Hl.
+        destruct (HF (or_introl Hl) eq_refl Hrep) as (Hz & Hlt & Hna & Hr').
+        rewrite Hz. cbn [negb]. rewrite Hlt.
+        assert (Ha : pm_array (snd (py_node_read_o n sg (Some (root_addr (Nd dl ll cl rl))))) = pm_array sg).
+        { rewrite py_node_read_o_some. destruct Hrep as (Hbs & (hdr & Harr & Hh) & Henc).
+          pose proof (blk_at_main_subt s Hinv dl ll cl rl Hl) as Hblk. destruct (blk_at_off _ _ _ Hblk) as [Hao Hn0].
+          pose proof (py_node_read_spec n sg hdr (files_of s) (tidx (addr dl)) _ Hbs Harr Hh Henc Hn0) as HS.
+          cbv zeta in HS. rewrite <- Hao in HS. cbn [root_addr]. apply HS. }
+        destruct (py_node_read_o n sg (Some (root_addr (Nd dl ll cl rl)))) as [n1 sg1] eqn:Er.
+        cbn [fst snd] in Hna, Hr', Ha.
+        destruct (IHl Hl k n1 sg1 ltac:(lia) Hna Hr') as (sg' & t & n' & H1 & H2 & H3 & H4 & H5).
+        exists sg', t, n'. rewrite H2, Ha. split; [exact H1|]. split; [reflexivity|]. split; [exact H3|]. split; [exact H4|exact H5].
+    - unfold py_node_has_right, py_node_read_right, py_node_has_right, py_node_right.
+      rewrite Hd, get_right. cbn [main_block b_right].
+      pose proof (follow_reg r n sg (root_addr r)) as HF.
+      destruct r as [|dr lr cr rr].
+      + cbn [root_addr]. change (0 =? 0) with true. cbn [negb].
+        exists sg, (Nd d l c Lf), n. split; [exact Hrep|]. split; [reflexivity|]. split; [exact Hn|]. split; [exact Hsub|].
+        right. exists false. split; [reflexivity|]. split; [reflexivity|]. split; [exact E|reflexivity].
+      + pose proof (subt_right _ _ _ _ _ Hsub) as Hr.
+        destruct (HF (or_introl Hr) eq_refl Hrep) as (Hz & Hlt & Hna & Hr').
+        rewrite Hz. cbn [negb]. rewrite Hlt.
+        assert (Ha : pm_array (snd (py_node_read_o n sg (Some (root_addr (Nd dr lr cr rr))))) = pm_array sg).
+        { rewrite py_node_read_o_some. destruct Hrep as (Hbs & (hdr & Harr & Hh) & Henc).
+          pose proof (blk_at_main_subt s Hinv dr lr cr rr Hr) as Hblk. destruct (blk_at_off _ _ _ Hblk) as [Hao Hn0].
+          pose proof (py_node_read_spec n sg hdr (files_of s) (tidx (addr dr)) _ Hbs Harr Hh Henc Hn0) as HS.
+          cbv zeta in HS. rewrite <- Hao in HS. cbn [root_addr]. apply HS. }
+        destruct (py_node_read_o n sg (Some (root_addr (Nd dr lr cr rr)))) as [n1 sg1] eqn:Er.
+        cbn [fst snd] in Hna, Hr', Ha.
+        destruct (IHr Hr k n1 sg1 ltac:(lia) Hna Hr') as (sg' & t & n' & H1 & H2 & H3 & H4 & H5).
+        exists sg', t, n'. rewrite H2, Ha. split; [exact H1|]. split; [reflexivity|]. split; [exact H3|]. split; [exact H4|exact H5].
+  Qed.
+
+  Definition blk_with_parent (p : N) (b : tblock) : tblock :=
+    mkBlk (b_stem b) (b_flags b) (b_we b) (b_left b) (b_right b) (b_child b) p (b_out b) (b_in b).
+  Lemma set_parent_vals : forall b p, py_set_nth pos_parent (VNum p) (tblock_vals b) = tblock_vals (blk_with_parent p b).
+  Proof. intros [st fl w l r c pa o i] p. reflexivity. Qed.
+  Lemma set_left_vals : forall b a, py_set_nth pos_left (VNum a) (tblock_vals b) =
+    tblock_vals (mkBlk (b_stem b) (b_flags b) (b_we b) a (b_right b) (b_child b) (b_parent b) (b_out b) (b_in b)).
+  Proof. intros [st fl w l r c pa o i] a. reflexivity. Qed.
+  Lemma set_right_vals : forall b a, py_set_nth pos_right (VNum a) (tblock_vals b) =
+    tblock_vals (mkBlk (b_stem b) (b_flags b) (b_we b) (b_left b) a (b_child b) (b_parent b) (b_out b) (b_in b)).
+  Proof. intros [st fl w l r c pa o i] a. reflexivity. Qed.
+
+  Lemma trep_length : forall sg, trep (files_of s) sg ->
+    length (pm_array sg) = (128 + 128 * length (ft (files_of s)))%nat.
+  Proof. intros sg (_ & (hdr & Harr & Hh) & _). rewrite Harr, app_length, flat_blocks_length, Hh. reflexivity. Qed.
+
+  Lemma node_in_file : forall d l c r sg, subt (Nd d l c r) (tr s) -> trep (files_of s) sg ->
+    addr d + 128 <= N.of_nat (length (pm_array sg)) /\ 128 <= addr d.
+  Proof.
+    intros d l c r sg Hsub Hrep. pose proof (blk_at_main_subt s Hinv d l c r Hsub) as Hblk.
+    destruct (blk_at_off _ _ _ Hblk) as [Ha Hn].
+    assert (tidx (addr d) < length (ft (files_of s)))%nat by (apply nth_error_Some; congruence).
+    rewrite (trep_length sg Hrep), Ha. unfold blk_off, bsz. change py_node_block_size with 128. lia.
+  Qed.
+
+  (* hanging a new sibling under the node the walk ended at: the new node's blocks are appended, one register of the node's
+     block is rewritten in place, every other byte of the file is unchanged *)
+  Lemma hang_spec : forall x sg n dt lt ct rt (side : bool),
+    node_at (Nd dt lt ct rt) n -> subt (Nd dt lt ct rt) (tr s) -> trep (files_of s) sg ->
+    lex x (stem dt) = (if side then Lt else Gt) ->
+    let a := N.of_nat (length (pm_array sg)) in
+    let d1 := mkNd a (par dt) x false false false true 0 0 0 in
+    let b' := if side then main_block dt a (root_addr rt) (root_addr ct)
+              else main_block dt (root_addr lt) a (root_addr ct) in
+    exists sg' sib, hang x sg n = Some (sg', sib) /\
+      nd_block sib = Some a /\ nd_exists sib = true /\ py_node_stem sib = x /\
+      nd_data sib = tblock_vals (main_block d1 0 0 0) /\
+      pm_block_size sg' = py_node_block_size /\
+      firstn (N.to_nat (addr dt)) (pm_array sg') = firstn (N.to_nat (addr dt)) (pm_array sg) /\
+      GenStorage.py_slice (addr dt) (addr dt + 128) (pm_array sg') = encode_tblock b' /\
+      skipn (N.to_nat (addr dt) + 128) (pm_array sg') =
+        skipn (N.to_nat (addr dt) + 128) (pm_array sg) ++ flat_map encode_tblock (node_blocks d1 0 0 0).
+  Proof.
+    intros x sg n dt lt ct rt side Hn Hsub Hrep Hlex a d1 b'.
+    pose proof Hn as (He & Hb & Hd & Hs).
+    pose proof Hrep as (Hbs & _ & _).
+    destruct (node_in_file dt lt ct rt sg Hsub Hrep) as [Hin Hge].
+    unfold hang.
+    assert (Hinit : py_node_init sg (Some x) None None = (py_node_set_default_data py_node_new (Some x), sg)) by reflexivity.
+    rewrite Hinit.
+    destruct (py_node_new_node_spec x a) as (Hdata0 & Htail0 & Hblk0 & Hex0 & Hstem0).
+    set (sib0 := py_node_set_default_data py_node_new (Some x)) in *.
+    assert (Hpar : py_node_parent n = par dt).
+    { unfold py_node_parent. rewrite Hd, get_parent. reflexivity. }
+    rewrite Hpar.
+    set (sib1 := py_node_set_parent sib0 (par dt)).
+    assert (Hdata1 : nd_data sib1 = tblock_vals (main_block d1 0 0 0)).
+    { unfold sib1, py_node_set_parent. cbn [nd_set_data nd_data]. rewrite Hdata0, set_parent_vals. reflexivity. }
+    assert (Htail1 : nd_tail sib1 = skipn stem_size_nat x) by exact Htail0.
+    assert (Hblk1 : nd_block sib1 = None) by exact Hblk0.
+    assert (Hex1 : nd_exists sib1 = false) by exact Hex0.
+    destruct (py_node_write_new sib1 sg (main_block d1 0 0 0) x Hblk1 Hex1 Hdata1 Htail1 Hbs)
+      as (Harr2 & Hbs2 & _ & Hb2 & He2 & Ht2 & Hd2).
+    destruct (py_node_write sib1 sg) as [sib2 sg2]. cbn [fst snd] in *.
+    fold a in Hb2.
+    assert (Hstem2 : py_node_stem sib2 = x).
+    { unfold py_node_stem. rewrite Hd2, Ht2, Hdata1, Htail1. cbn [main_block].
+      rewrite py_get_stem. cbn [b_stem stem d1]. apply firstn_skipn. }
+    rewrite Hs. unfold blt. rewrite Hlex, Hb2.
+    assert (Hage : (a <? py_first_data_block) = false).
+    { apply N.ltb_ge. unfold a. change py_first_data_block with 128. lia. }
+    assert (Hnew : pm_array sg2 = pm_array sg ++ flat_map encode_tblock (node_blocks d1 0 0 0)).
+    { rewrite Harr2. unfold node_blocks. cbn [flat_map stem d1]. reflexivity. }
+    assert (Hlen2 : addr dt + 128 <= N.of_nat (length (pm_array sg2))).
+    { rewrite Hnew, app_length. lia. }
+    destruct side.
+    - unfold py_node_set_left. rewrite Hage.
+      set (n2 := nd_set_data (py_set_nth pos_left (VNum a) (nd_data n)) n).
+      assert (Hd3 : nd_data n2 = tblock_vals b').
+      { unfold n2, b'. cbn [nd_set_data nd_data]. rewrite Hd, set_left_vals. reflexivity. }
+      destruct (py_node_write_existing n2 sg2 (addr dt) b' He Hb Hd3 (eq_trans Hbs2 Hbs) Hlen2)
+        as (_ & W2 & W3 & W4 & W5 & W6 & _).
+      destruct (py_node_write n2 sg2) as [n3 sg3]. cbn [fst snd] in *.
+      exists sg3, sib2. split; [reflexivity|]. split; [exact Hb2|]. split; [exact He2|]. split; [exact Hstem2|].
+      split; [rewrite Hd2; exact Hdata1|]. split; [rewrite W6, Hbs2; exact Hbs|].
+      split; [rewrite W3, Hnew, firstn_app; replace (N.to_nat (addr dt) - length (pm_array sg))%nat with 0%nat by lia;
+              cbn [firstn]; apply app_nil_r|].
+      split; [exact W4|].
+      rewrite W5, Hnew, skipn_app. replace (N.to_nat (addr dt) + 128 - length (pm_array sg))%nat with 0%nat by lia.
+      reflexivity.
+    - unfold py_node_set_right. rewrite Hage.
+      set (n2 := nd_set_data (py_set_nth pos_right (VNum a) (nd_data n)) n).
+      assert (Hd3 : nd_data n2 = tblock_vals b').
+      { unfold n2, b'. cbn [nd_set_data nd_data]. rewrite Hd, set_right_vals. reflexivity. }
+      destruct (py_node_write_existing n2 sg2 (addr dt) b' He Hb Hd3 (eq_trans Hbs2 Hbs) Hlen2)
+        as (_ & W2 & W3 & W4 & W5 & W6 & _).
+      destruct (py_node_write n2 sg2) as [n3 sg3]. cbn [fst snd] in *.
+      exists sg3, sib2. split; [reflexivity|]. split; [exact Hb2|]. split; [exact He2|]. split; [exact Hstem2|].
+      split; [rewrite Hd2; exact Hdata1|]. split; [rewrite W6, Hbs2; exact Hbs|].
+      split; [rewrite W3, Hnew, firstn_app; replace (N.to_nat (addr dt) - length (pm_array sg))%nat with 0%nat by lia;
+              cbn [firstn]; apply app_nil_r|].
+      split; [exact W4|].
+      rewrite W5, Hnew, skipn_app. replace (N.to_nat (addr dt) + 128 - length (pm_array sg))%nat with 0%nat by lia.
+      reflexivity.
+  Qed.
+
+  (* __ensure_stem_from_siblings(node, stem) from the node object of the root of a sibling tree: either the sibling carrying the
+     stem exists and is returned with the file untouched, or a new node is appended and hung under the node where the walk ended *)
+  Theorem py_trie_ensure_spec : forall x sub n sg,
+    subt sub (tr s) -> node_at sub n -> trep (files_of s) sg ->
+    match sib_end x sub with
+    | Some (t, None) =>
+        exists sg' n', py_trie_ensure_stem_from_siblings sg n x = Some (sg', n') /\ node_at t n' /\
+                       pm_array sg' = pm_array sg /\ trep (files_of s) sg'
+    | Some (Nd dt lt ct rt, Some side) =>
+        let a := N.of_nat (length (pm_array sg)) in
+        let d1 := mkNd a (par dt) x false false false true 0 0 0 in
+        let b' := if side then main_block dt a (root_addr rt) (root_addr ct)
+                  else main_block dt (root_addr lt) a (root_addr ct) in
+        subt (Nd dt lt ct rt) (tr s) /\ (if side then lt else rt) = Lf /\
+        exists sg' sib, py_trie_ensure_stem_from_siblings sg n x = Some (sg', sib) /\
+          nd_block sib = Some a /\ nd_exists sib = true /\ py_node_stem sib = x /\
+          nd_data sib = tblock_vals (main_block d1 0 0 0) /\
+          pm_block_size sg' = py_node_block_size /\
+          firstn (N.to_nat (addr dt)) (pm_array sg') = firstn (N.to_nat (addr dt)) (pm_array sg) /\
+          GenStorage.py_slice (addr dt) (addr dt + 128) (pm_array sg') = encode_tblock b' /\
+          skipn (N.to_nat (addr dt) + 128) (pm_array sg') =
+            skipn (N.to_nat (addr dt) + 128) (pm_array sg) ++ flat_map encode_tblock (node_blocks d1 0 0 0)
+    | _ => False
+    end.
+  Proof.
+    intros x sub n sg Hsub Hn Hrep. rewrite ensure_eq.
+    assert (Hex : nd_exists n = true) by (destruct sub; [destruct Hn|apply Hn]).
+    rewrite Hex. cbn [negb].
+    destruct (loop2_spec x sub Hsub (S (length (pm_array sg))) n sg (fuel_enough sub sg Hsub Hrep) Hn Hrep)
+      as (sg1 & t & n1 & Hrep1 & Harr1 & Hn1 & Hsub1 & [[Es El]|(side & Es & El & Ht)]).
+    - rewrite Es, El. cbv beta iota. destruct t; (exists sg1, n1; split; [reflexivity|]; split; [exact Hn1|]; split; [exact Harr1|exact Hrep1]).
+    - rewrite Es, El. destruct t as [|dt lt ct rt]; [destruct Ht|]. destruct Ht as [Hlex Hlf].
+      cbv beta iota zeta. split; [exact Hsub1|]. split; [exact Hlf|].
+      destruct (hang_spec x sg1 n1 dt lt ct rt side Hn1 Hsub1 Hrep1 Hlex) as (sg' & sib & E & H1 & H2 & H3 & H4 & H5 & H6 & H7 & H8).
+      rewrite Harr1 in *. exists sg', sib.
+      split; [exact E|]. split; [exact H1|]. split; [exact H2|]. split; [exact H3|]. split; [exact H4|].
+      split; [exact H5|]. split; [exact H6|]. split; [exact H7|exact H8].
+  Qed.
+(*WRITE-SIDE*)
 End OnState.
 
 Print Assumptions py_trie_lru_node_spec.
 Print Assumptions py_trie_windup_spec.
+Print Assumptions py_trie_ensure_spec.
+
+(* ---- the hypothesis trep is met by the trie file of any state whose blocks fit their fields ---- *)
+From Traph Require ReopenFacts PropsEx.
+Lemma trep_of_file : forall s c, Forall blk_encodable (ft (files_of s)) ->
+  trep (files_of s) (mk_pm py_node_block_size (trie_file s) c).
+Proof.
+  intros s c Henc. split; [reflexivity|]. split; [|exact Henc].
+  exists (encode_trie_header (lastwe s)). split; [|apply ReopenFacts.encode_trie_header_length].
+  unfold trie_file, files_of. cbn [pm_array ft]. f_equal.
+  induction (flatten (tr s)) as [|p l IH]; [reflexivity|]. cbn [flat_map map]. rewrite IH. reflexivity.
+Qed.
+
+(* non-vacuity: the translated code run on the bytes of the trie file of a concrete state (PropsEx.exs: a history with a
+   103-byte stem) finds the node of a known LRU at the address the model gives it, finds nothing for an unknown one, winds the
+   found block up to the LRU, and an insertion of a new sibling appends exactly one block *)
+Definition ex_sg : py_pm := mk_pm 128 (trie_file PropsEx.exs) 0.
+Example ex_lookup_known :
+  option_map (fun r => option_map nd_block (snd r)) (py_trie_lru_node ex_sg PropsEx.ex_pxy)
+  = Some (option_map (fun d => Some (addr d)) (find (lru_iter PropsEx.ex_pxy) (tr PropsEx.exs))).
+Proof. vm_compute. reflexivity. Qed.
+Example ex_lookup_unknown :
+  option_map (fun r => option_map nd_block (snd r)) (py_trie_lru_node ex_sg (PropsEx.ex_px ++ [112; 58; 122; 124]))
+  = Some None.
+Proof. vm_compute. reflexivity. Qed.
+Example ex_windup :
+  match py_trie_lru_node ex_sg PropsEx.ex_pl with
+  | Some (sg, Some n) => match nd_block n with
+                         | Some a => option_map (fun r => beq (snd r) PropsEx.ex_pl) (py_trie_windup_lru sg a)
+                         | None => None
+                         end
+  | _ => None
+  end = Some true.
+Proof. vm_compute. reflexivity. Qed.
+Example ex_insert_sibling :
+  match py_trie_lru_node ex_sg PropsEx.ex_px with
+  | Some (sg, Some n) =>
+      option_map (fun r => (nd_block (snd r), N.of_nat (length (pm_array (fst r))) - N.of_nat (length (pm_array sg))))
+                 (py_trie_ensure_stem_from_siblings sg n [112; 58; 122; 124])
+  | _ => None
+  end = Some (Some (N.of_nat (length (trie_file PropsEx.exs))), 128).
+Proof. vm_compute. reflexivity. Qed.
